@@ -211,3 +211,65 @@ Section MultiProofs.
     - intros t' r' [].
   Qed.
 End MultiProofs.
+
+(* ------------------------------------------------------------------ the assumed behaviour of pandapower's loop *)
+Section Oracles.
+  Variable C V R : Type.
+  Variable ceqb : C -> C -> bool.
+  Variable spec : desc C V -> option R.
+  Hypothesis spec_ext : forall u u', (forall c, u c = u' c) -> spec u = spec u'.
+  Variable cells : list C.
+  Variable profile : nat -> C -> V.
+  Variable control_time_step : nat -> desc C V -> desc C V.
+  Variable run_function : desc C V -> option R * desc C V.
+  Variable ow_save : nat -> option R -> list (nat * option R) -> list (nat * option R).
+
+  (* ConstControl: time_step(t) writes data_source[t, profile_name] * scale_factor into the controlled cells and
+     nothing else, whatever they held *)
+  Hypothesis const_control_law : forall t u c, control_time_step t u c = write_step C V ceqb cells profile t u c.
+  (* the registered run function is pipeflow (Gen/TsWiring) and by C12 it returns spec of the description and leaves
+     the description unchanged; a listed error is reported as None *)
+  Hypothesis run_law : forall u, fst (run_function u) = spec u /\ forall c, snd (run_function u) c = u c.
+  (* OutputWriter: one row per saved step, in the order of the calls *)
+  Hypothesis ow_law : forall t r log, ow_save t r log = log ++ [(t, r)].
+
+  Notation pp_loop := (pp_loop C V R control_time_step run_function ow_save).
+  Notation loop := (loop C V R ceqb spec cells profile).
+
+  (* The loop shaped like pandapower's run_time_step logs what the model logs and ends like it, except that when it
+     raises the failing step is not written by the output writer (the model lists it as None) *)
+  Definition drop_failed (x : list (nat * option R)) (st : status) : list (nat * option R) :=
+    match st with Raised _ => removelast x | Finished => x end.
+
+  Lemma write_step_ext : forall t (l : list C) (u u' : desc C V), (forall c, u c = u' c) ->
+    forall c, fold_left (fun u c => set C V ceqb c (profile t c) u) l u c =
+              fold_left (fun u c => set C V ceqb c (profile t c) u) l u' c.
+  Proof.
+    intros t l. induction l as [|x r IHc]; intros u u' Huu; simpl; auto.
+    apply IHc. intros c'. unfold Model.set. destruct (ceqb c' x); auto.
+  Qed.
+
+  Lemma pandapower_loop_lemma : forall cod steps u u' log,
+    (forall c, u c = u' c) ->
+    logged C V R (pp_loop cod steps u log) =
+      drop_failed (logged C V R (loop cod steps u' log)) (outcome C V R (loop cod steps u' log)) /\
+    outcome C V R (pp_loop cod steps u log) = outcome C V R (loop cod steps u' log).
+  Proof.
+    intros cod steps. induction steps as [|t rest IH]; intros u u' log Huu; simpl.
+    - unfold logged, outcome. simpl. auto.
+    - destruct (run_law (control_time_step t u)) as [Hf Hs].
+      destruct (run_function (control_time_step t u)) as [res u2] eqn:E. simpl in Hf, Hs.
+      assert (Heq : forall c, control_time_step t u c = write_step C V ceqb cells profile t u' c).
+      { intros c. rewrite const_control_law. unfold Model.write_step. apply write_step_ext. exact Huu. }
+      assert (Hspec : spec (control_time_step t u) = spec (write_step C V ceqb cells profile t u')).
+      { apply spec_ext. exact Heq. }
+      rewrite <- Hspec, <- Hf.
+      assert (Hu2 : forall c, u2 c = write_step C V ceqb cells profile t u' c).
+      { intros c. rewrite Hs. apply Heq. }
+      destruct res as [r|].
+      + rewrite ow_law. apply IH. exact Hu2.
+      + destruct cod.
+        * rewrite ow_law. apply IH. exact Hu2.
+        * unfold logged, outcome, drop_failed. simpl. rewrite removelast_last. auto.
+  Qed.
+End Oracles.
